@@ -22,6 +22,7 @@ def body(r):
     worlds += [swarm.build_world(r.seed, 50000 + i, "ins", ["ins"], rr, p_fault=0.35) for i in range(n_ins)]
     swarm.run_swarm(r, PROP, worlds, oracles=ORACLES)
     return r.finish(
+        minimise=swarm.make_minimiser(PROP, (), ORACLES),
         rule=("seeded swarm of runs of both samplers (every proposal class available here, latent priors, "
               "radius/volume options, weight accumulation, log-q truncation, reparameterisations, pool and draw "
               "sizes, uniform and non-uniform priors), a third with kill-and-resume cycles. After every populate: "
